@@ -34,6 +34,25 @@ enum Ctxt {
 /// w pairwise compatible systems (distinct write slots, shared read slot), optionally preceded by
 /// a conflicting system so that the wide stage is not the first one.
 fn wide_level(uid: &mut u32, w: usize, rng: &mut Rng, prefix: bool, base_ty: usize) -> Vec<Item> {
+    // sometimes one of the w groups is a chain of two systems (a very short writer followed, in the
+    // same group, by a short reader of the same resource): the stage still has w groups
+    if !prefix && w >= 2 && rng.chance(1, 4) {
+        let chain_slot = Slot::new(6, 2);
+        let mut items = Vec::new();
+        let hu = *uid;
+        *uid += 1;
+        items.push(Item::Sys(SysSpec { uid: hu, name: format!("s{}", hu), deps: vec![], reads: vec![], writes: vec![chain_slot], time: 1, kind: Kind::Dyn }));
+        for i in 0..w - 1 {
+            let u = *uid;
+            *uid += 1;
+            let sl = Slot::new(base_ty + i / NDYN, i % NDYN);
+            items.push(Item::Sys(SysSpec { uid: u, name: format!("s{}", u), deps: vec![], reads: vec![], writes: vec![sl], time: 3, kind: Kind::Dyn }));
+        }
+        let tu = *uid;
+        *uid += 1;
+        items.push(Item::Sys(SysSpec { uid: tu, name: format!("s{}", tu), deps: vec![], reads: vec![chain_slot], writes: vec![], time: 2, kind: Kind::Dyn }));
+        return items;
+    }
     let mut items = Vec::new();
     let next = |uid: &mut u32| {
         let u = *uid;
@@ -156,6 +175,10 @@ fn case(rng: &mut Rng, rep: &mut Report, case_no: u64, reps: usize) {
     let warmup = if w <= 6 && rng.chance(1, 2) { rng.range(200, 3000) } else { 0 };
     let back_to_back = rng.chance(1, 2);
     let par_only = rng.chance(1, 3);
+    let foreign: Option<Pool> = if rng.chance(1, 4) { Some(make_pool(rng.range(1, 2))) } else { None };
+    if foreign.is_some() {
+        rep.metric("dispatch_called_from_a_foreign_pool_worker", 1);
+    }
     rep.metric("warmup_dispatches", warmup as i64);
     // One complete scenario on a fresh dispatcher: warm-up history, then `reps` dispatches whose
     // group heads rendezvous. Returns (rendezvous completed, participants that gave up).
@@ -211,6 +234,22 @@ fn case(rng: &mut Rng, rep: &mut Report, case_no: u64, reps: usize) {
                     d.dispatch(&world);
                 }
                 ctx.set_mode(Mode::Build);
+                if let Some(f) = &foreign {
+                    // the caller is itself a worker of some *other*, narrow pool: the dispatcher's
+                    // own pool still has its idle threads (sendable form: these plans have no
+                    // thread-local systems)
+                    let mut sd = match d.try_into_sendable() {
+                        Ok(sd) => sd,
+                        Err(_) => return (0, 0),
+                    };
+                    run_reps(
+                        &mut || f.install(|| if par_only { sd.dispatch_par(&world) } else { sd.dispatch(&world) }),
+                        &ctx,
+                        &mut completed,
+                        &mut gave_up,
+                    );
+                    return (completed, gave_up);
+                }
                 run_reps(
                     &mut || {
                         if par_only {
